@@ -274,6 +274,28 @@ class Attack:
         elif mode < 0.33 and ser == 'default':
             sendf = [long_run_frames(rng)]
             ctx.count('long_run_frames')
+        elif 0.39 <= mode < 0.43:
+            # names that collide with the registry's catch-all key: an event
+            # called "*" (any serializer) and - msgpack only, the text format
+            # cannot express it - the namespace "*"; the first argument is
+            # a bystander's session id
+            mine = [ns for (T, ns) in r.issued if T == self.OT] or ['/']
+            victim = rng.choice(sorted(self.by_sids)) if self.by_sids \
+                else 'nosuchsid'
+            ns = rng.choice(mine)
+            pid = rng.choice([None, 5])
+            if ser == 'msgpack':
+                if rng.random() < 0.5:
+                    sendf = [R.msgpack_encode(R.CONNECT, '*', None, None),
+                             R.msgpack_encode(R.EVENT, '*', pid,
+                                              [rng.choice(S.EVENT_POOL),
+                                               victim, 'x'])]
+                else:
+                    sendf = [R.msgpack_encode(R.EVENT, ns, pid,
+                                              ['*', victim, 'x'])]
+            else:
+                sendf = [R.encode(R.EVENT, ns, pid, ['*', victim, 'x'])[0]]
+            ctx.count('catch_all_key_collision_frames')
         elif mode < 0.39 and ser == 'default':
             # a binary event, complete with all the attachments it declares,
             # in which one placeholder refers to an attachment that does not
@@ -606,6 +628,7 @@ def run(ctx):
     ctx.require('frames_allocation_checked', 300)
     ctx.require('derivability_checks', 20)
     ctx.require('bad_placeholder_index_packets', 20)
+    ctx.require('catch_all_key_collision_frames', 20)
     k = 0
     while not ctx.out_of_time() and not ctx.too_many_violations():
         traced = k % 3 == 0
